@@ -1,10 +1,9 @@
 package types
 
 import (
-	"encoding/json"
+	"bytes"
 	"strings"
 
-	"github.com/nyaruka/gocommon/jsonx"
 	"github.com/nyaruka/goflow/envs"
 	"github.com/nyaruka/goflow/utils"
 )
@@ -95,14 +94,24 @@ func (x *XArray) Format(env envs.Environment) string {
 
 // MarshalJSON converts this type to internal JSON
 func (x *XArray) MarshalJSON() ([]byte, error) {
-	marshaled := make([]json.RawMessage, x.Count())
+	b := &bytes.Buffer{}
+	x.writeJSON(b)
+	return b.Bytes(), nil
+}
+
+func (x *XArray) writeJSON(b *bytes.Buffer) {
+	b.WriteByte('[')
 	for i, v := range x.values() {
-		asJSON, err := ToXJSON(v)
-		if err == nil {
-			marshaled[i] = json.RawMessage(asJSON.Native())
+		if i > 0 {
+			b.WriteByte(',')
+		}
+		mark := b.Len()
+		if xerr := writeJSON(b, v); xerr != nil {
+			b.Truncate(mark)
+			b.WriteString(`null`)
 		}
 	}
-	return jsonx.Marshal(marshaled)
+	b.WriteByte(']')
 }
 
 // String returns the native string representation of this type
